@@ -1,7 +1,129 @@
 import Driver.Proto
+import GbVerif.Model.Timer
+import GbVerif.Spec.Timer
+/-!
+C13 replay.  Line: `c13.<sub> ops=<op,op,…> [pops=<op,…>] | obs=<o,o,…> [pobs=<o,…>]`
+  op  = `d` (DIV write) | `t<v>` (TIMA) | `m<v>` (TMA) | `c<v>` (TAC) | `r<n>+<n>+…` (run_cycles batches, one
+        observation after the last one, flags OR-ed)
+  obs = `div:tima:tma:tac:flag[:cycle_count:enabled_mask:timer_clock_mask]` after each op, or `P` (panicked; last)
+Spec side: the per-clock machine `GbVerif.TimerSpec` fed with the same events (a run = the total of its batches).
+Model side: `GbVerif.Timer` batch by batch.  `c13.part`: `pops` is `ops` with the runs split differently;
+implementation results of both must agree (batching independence) and the model must match both.
+-/
 namespace Driver
+open GbVerif
 
-/-- C13 correspondence (stub) -/
-def checkC13 (l : Line) : Verdict := .bad s!"stream {l.stream} not implemented"
+inductive C13Op where
+  | div | tima (v : Nat) | tma (v : Nat) | tac (v : Nat) | run (bs : List Nat)
+
+def parseC13Op (s : String) : Option C13Op :=
+  match s.toList with
+  | ['d'] => some .div
+  | 't' :: r => some (.tima (parseNat (String.ofList r)))
+  | 'm' :: r => some (.tma (parseNat (String.ofList r)))
+  | 'c' :: r => some (.tac (parseNat (String.ofList r)))
+  | 'r' :: r => some (.run (((String.ofList r).splitOn "+").map parseNat))
+  | _ => none
+
+def parseC13Ops (s : String) : Option (List C13Op) :=
+  if s = "" then some [] else (s.splitOn ",").mapM parseC13Op
+
+/-- `none` = the implementation panicked at this op -/
+def parseC13Obs (s : String) : List (Option (List Nat)) :=
+  if s = "" then [] else (s.splitOn ",").map fun o => if o = "P" then none else some ((o.splitOn ":").map parseNat)
+
+/-- model: one op; `none` = panic -/
+def c13ModelStep (s : Timer.State) : C13Op → Option (Timer.State × Bool)
+  | .div => some (Timer.resetDivider s, false)
+  | .tima v => some (Timer.setCounter s v, false)
+  | .tma v => some (Timer.setModulo s v, false)
+  | .tac v => some (Timer.setTimerControl s v)
+  | .run bs => bs.foldlM (fun (acc : Timer.State × Bool) b =>
+      (Timer.runCycles acc.1 b).map fun r => (r.1, acc.2 || r.2)) (s, false)
+
+def c13ModelObs (s : Timer.State) (f : Bool) : List Nat :=
+  [Timer.getDivider s, Timer.getCounter s, Timer.getModulo s, Timer.getTimerControl s, if f then 1 else 0,
+   s.cycleCount, s.enabledMask, s.timerClockMask]
+
+/-- spec: one event; batches are just time. Short runs are stepped clock by clock, long ones use the
+proved closed form. -/
+def c13SpecStep (h : TimerSpec.Hw) : C13Op → TimerSpec.Hw × Bool
+  | .div => (TimerSpec.writeDiv h, false)
+  | .tima v => (TimerSpec.writeTima h v, false)
+  | .tma v => (TimerSpec.writeTma h v, false)
+  | .tac v => TimerSpec.writeTac h v
+  | .run bs =>
+    let n := bs.foldl (· + ·) 0
+    if n ≤ 4096 then TimerSpec.clocksAcc n h false else TimerSpec.clocksFast n h
+
+def c13SpecObs (h : TimerSpec.Hw) (f : Bool) : List Nat :=
+  [TimerSpec.div h, h.tima, h.tma, h.tac, if f then 1 else 0]
+
+def c13Show (l : List Nat) : String := ":".intercalate (l.map toString)
+
+/-- first disagreement between the spec machine and the implementation's observations -/
+def c13SpecCheck (ops : List C13Op) (obs : List (Option (List Nat))) : Option String :=
+  let rec go (i : Nat) (h : TimerSpec.Hw) : List C13Op → List (Option (List Nat)) → Option String
+    | [], [] => none
+    | op :: ops, some o :: obs =>
+      let r := c13SpecStep h op
+      let want := c13SpecObs r.1 r.2
+      if o.take 5 != want then some s!"op#{i}: impl={c13Show (o.take 5)} spec={c13Show want} (div:tima:tma:tac:irq)"
+      else go (i + 1) r.1 ops obs
+    | _, none :: _ => none      -- a panic is outside the spec's domain; the model decides
+    | _, _ => some s!"op#{i}: observation count mismatch"
+  go 0 TimerSpec.init ops obs
+
+def c13ModelCheck (ops : List C13Op) (obs : List (Option (List Nat))) : Option String :=
+  let rec go (i : Nat) (s : Timer.State) : List C13Op → List (Option (List Nat)) → Option String
+    | [], [] => none
+    | op :: _, [none] =>
+      match c13ModelStep s op with
+      | none => none
+      | some _ => some s!"op#{i}: impl panicked, model did not"
+    | op :: ops, some o :: obs =>
+      match c13ModelStep s op with
+      | none => some s!"op#{i}: model panics, impl={c13Show o}"
+      | some r =>
+        let want := (c13ModelObs r.1 r.2).take o.length
+        if o != want then some s!"op#{i}: model={c13Show want} impl={c13Show o}"
+        else go (i + 1) r.1 ops obs
+    | _, _ => some s!"op#{i}: observation count mismatch"
+  go 0 Timer.init ops obs
+
+def c13Nontrivial (obs : List (Option (List Nat))) : Bool :=
+  obs.any fun o => match o with
+    | none => true
+    | some l => l.getD 4 0 == 1
+
+def checkC13 (l : Line) : Verdict :=
+  match parseC13Ops (l.inS "ops") with
+  | none => .bad "unparsable ops"
+  | some ops =>
+    let obs := parseC13Obs (l.outS "obs")
+    if l.stream == "c13.part" then
+      match parseC13Ops (l.inS "pops") with
+      | none => .bad "unparsable pops"
+      | some pops =>
+        let pobs := parseC13Obs (l.outS "pobs")
+        if obs.map (·.map (·.take 5)) != pobs.map (·.map (·.take 5)) then
+          .specDiff "batching: the same history with the elapsed time split differently gives different DIV/TIMA/TMA/TAC/irq"
+        else match c13SpecCheck ops obs with
+        | some m => .specDiff m
+        | none => match c13ModelCheck ops obs with
+          | some m => .modelDiff m
+          | none => match c13ModelCheck pops pobs with
+            | some m => .modelDiff ("split: " ++ m)
+            | none => .ok (c13Nontrivial obs)
+    else if l.stream == "c13.big" then
+      -- batches beyond the stated domain (u32 truncation / overflow check): model tie only
+      match c13ModelCheck ops obs with
+      | some m => .modelDiff m
+      | none => .ok (c13Nontrivial obs)
+    else match c13SpecCheck ops obs with
+      | some m => .specDiff m
+      | none => match c13ModelCheck ops obs with
+        | some m => .modelDiff m
+        | none => .ok (c13Nontrivial obs)
 
 end Driver
